@@ -13,7 +13,7 @@ PYSEM = ('Python semantics assumed by the VC encoding (E1-E6 in DESIGN.md 2.2): 
 
 B = 'bounded stand-in: the contracts of the functions the property depends on, evaluated at run time on the real code over the scope stated in coverage.rule; labelled bounded, never counted as proved. '
 P = {
- 'C01': dict(level='exploration', ref='3/C01', tech='run-time contract result == sat(K,f) against an independent reference semantics (bounded); pyvc obligations when listed in evidence',
+ 'C01': dict(level='exploration', ref='3/C01', tech='contract-based deductive verification (pyvc + z3) of the CTL labelling functions _checkAtomicProposition/_checkNot/_checkOr/_checkEX/_checkStateFormula against result == sat(K,f) with the documented semantics as axioms; _checkEU/_checkEG/modelcheck bodies and compute_SCCs bounded only; decisive end-to-end part: run-time contract against an independent reference semantics',
    text=B + 'CTL.modelcheck against vf/spec/sem.py on every structure <=2 states (3 states sampled/all in thorough) x CTL formulas to depth 2, random beyond.', note='reference semantics vf/spec/sem.py trusted (audited against lasso enumeration); ' + PYSEM),
  'C02': dict(level='exploration', ref='3/C02', tech='run-time contract of LTL.modelcheck against the reference semantics with lasso certification (bounded); tableau internals not within deductive reach',
    text=B + 'LTL.modelcheck on small structures x path formulas with <=3 temporal operators; every excluded verdict certified by a concrete lasso.', note='_build_atoms/_Tableu and the tableau theorem are not proved; reference semantics trusted'),
@@ -25,7 +25,7 @@ P = {
    text=B + 'every rewrite result is in the restricted alphabet, of the same logic, and equivalent (LTL equivalence over 2 atoms decided exactly on the universal 4-state structure; quantified formulas on all <=2-state structures + samples).', note='reference semantics trusted; formulas to depth 2-3'),
  'C06': dict(level='exploration', ref='3/C06', tech='metamorphic run-time contracts (renaming, reordering, atom renaming, unreachable states) + fresh interpreters per PYTHONHASHSEED',
    text=B + '8 presentations per (K,f) and 4 (quick) / 32 (thorough) hash seeds.', note='finite sample of seeds and bijections'),
- 'C07': dict(level='exploration', ref='3/C07', tech='deep-snapshot frame contracts and repeatability over random interleavings of modelcheck calls',
+ 'C07': dict(level='exploration', ref='3/C07', tech='frame obligations (pyvc + z3: every heap write goes to an object allocated during the call or named by the contract) on the CTL labelling functions; deep-snapshot run-time contracts and repeatability over random interleavings decide the rest (bounded)',
    text=B + 'snapshots of structure (incl. object identity of label/successor sets), formula tree, F argument and module/class state after every call; interleaved repetitions return equal results.', note='bounded histories'),
  'C08': dict(level='exploration', ref='3/C08', tech='run-time contracts of constructors, cast_to and modelcheck guards against the documented grammars (wf_* written from logics.rst)',
    text=B + 'operator trees over the union alphabet exhaustive to depth 2, sampled depth 3, x 4 languages x {construct, mixed-language operands, cast_to, modelcheck}; non-formula arguments.', note='documented grammars transcribed in vf/spec/trees.py'),
@@ -37,10 +37,10 @@ P = {
    text=B + 'all ordered pairs of a pool per logic (== iff same tree, symmetry, hash, dict/set key), transitivity on triples, Bool vs bool, clone freshness.', note='bounded pools'),
  'C12': dict(level='exploration', ref='3/C12', tech='run-time contract of compute_SCCs (partition + mutual reachability) over all digraphs <=4 nodes; body not within deductive reach',
    text=B + 'every digraph with <=4 nodes under several insertion orders, sampled 5-node, random <=12 nodes; oracle = closure-based mutual reachability.', note='compute_SCCs body is not proved (iterative Nuutila variant with suspended iterators)'),
- 'C13': dict(level='exploration', ref='3/C13', tech='contracts on DiGraph operations: AST->VC generator (pyvc) + z3; bounded run-time contracts as stand-in',
-   text=B + 'every digraph <=3 nodes (quick) / <=4 nodes (thorough) x every node subset, plus seeded random graphs, checked against the contract view (V,E)/closure. Deductive obligations, when present in the evidence, are discharged for all graphs.', note='bounded part: scope in evidence; ' + PYSEM),
- 'C14': dict(level='exploration', ref='3/C14', tech='contracts on Kripke constructor/accessors/clone/get_substructure: pyvc + z3; bounded run-time contracts as stand-in',
-   text=B + 'relations on <=3 states incl. non-total ones x argument shapes x every subset.', note=PYSEM),
+ 'C13': dict(level='proof', ref='3/C13', tech='contract-based deductive verification: pyvc (AST->VC generator over the real source of graph.py, heap model, sidecar contracts and loop invariants) discharged by z3; bounded run-time contracts as cross-check',
+   text='Every obligation of the 12 DiGraph functions under contract (constructor, add_node/add_edge, accessors, clone, get_subgraph, get_reversed_graph, get_reachable_set_from: functional postconditions over the whole view (V,E), raises-iff, frames, freshness, least-fixpoint characterisation of reachability) is generated from the current source and discharged for all graphs and all iteration orders; plus the bounded stand-in (all digraphs <=3/4 nodes). If an obligation is not discharged the run is not reported as proof.' + B[:0], note='Python semantics assumed by the VC encoding (E1-E6, DESIGN.md 2.2); z3 and the pyvc generator are trusted (vacuity probes, planted defects, bounded stand-in as cross-check); termination not proved.'),
+ 'C14': dict(level='proof', ref='3/C14', tech='contract-based deductive verification: pyvc + z3 on kripke.py (constructor incl. raises-iff-not-total, labels/next/states/transitions, clone, get_substructure) over the graph.py contracts; bounded run-time contracts as cross-check',
+   text='Every obligation of the 8 Kripke functions under contract is generated from the current source and discharged for all argument combinations (optional S/S0/R/L, L possibly not a dict, non-iterable label values) and all subsets; callee contracts of graph.py are re-verified in the same run. Bounded stand-in: relations on <=3 states x argument shapes x all subsets.' + B[:0], note='Python semantics assumed by the VC encoding (E1-E6, DESIGN.md 2.2); z3 and the pyvc generator are trusted (vacuity probes, planted defects, bounded stand-in as cross-check); termination not proved. compute_SCCs is not involved.'),
  'C15': dict(level='exploration', ref='3/C15', tech='run-time contracts of get_fair_states and fair modelcheck against CGP fair semantics (Emerson-Lei reference); known findings attributed through defect models',
    text=B + 'get_fair_states on every relation <=3 states x every F of <=2 subsets; fair modelcheck on small structures; three recorded findings (KF-C15-1..3) are recognised only when the output equals what the defect model predicts.', note='reference semantics trusted; fairness is largely known-defective on the pinned tree'),
  'C16': dict(level='exploration', ref='3/C16', tech='representation-invariant scan + canonicity check after every step of random build/combine/drop/gc histories',
@@ -49,7 +49,7 @@ P = {
    text=B + 'expression pairs over <=4 variables, all orderings, all (v,b), truth tables on all assignments.', note='bounded'),
  'C18': dict(level='exploration', ref='3/C18', tech='run-time contracts of the OBDD parser functions and printers (lambda vs expression, synonyms, print round trip, error classes)',
    text=B + 'expressions to depth 4 over <=4 variables x argument orders; non-Boolean syntax list.', note='ast.parse trusted'),
- 'C19': dict(level='exploration', ref='3/C19', tech='run-time contract: result is a fresh set of states of K, exact, caller-owned; heterogeneous state/label types',
+ 'C19': dict(level='exploration', ref='3/C19', tech='safety obligations (pyvc + z3: no KeyError/IndexError/StopIteration/AttributeError, callee preconditions) on the CTL labelling functions; run-time contract (fresh caller-owned set of states of K, heterogeneous states/labels) decides the rest (bounded)',
    text=B + 'structures with str/tuple/mixed/None/float/frozenset states, non-string and operator-like labels, absent atoms; mutate result and call again.', note='RecursionError not claimed (resource bound)'),
 }
 
@@ -102,7 +102,7 @@ def main():
 
 
 NA = {}
-PYVC = set()
+PYVC = {'C01', 'C07', 'C13', 'C14', 'C19'}
 
 if __name__ == '__main__':
     main()
